@@ -6,6 +6,7 @@ from . import rules_unsafe as RU
 from . import rules_effect as RE
 from . import rules_extrema as RX
 from . import rules_skipnan as RK
+from . import rules_hist as RH
 from .facts import AnchorMissing
 
 TRUSTED = [
@@ -201,4 +202,58 @@ def c14(ctx):
     )
 
 
-PROPS = {"C14": c14, "C05": c05, "C20": c20, "C16": c16, "C17": c17, "C04": c04, "C03": c03}
+def c11(ctx):
+    prog = ctx.prog("dev")
+    H = "histogram::histograms::Histogram"
+    n = RH.rule_field_own(ctx, prog, H, "counts", ["Histogram::<A>::add_observation", "Histogram::<A>::new"],
+                          constructors=["Histogram::<A>::new"])
+    n += RH.rule_field_own(ctx, prog, H, "grid", ["Histogram::<A>::new"])
+    ctx.floor("R11", n, 2, "writes/borrows/constructions of Histogram fields")
+    RH.rule_r16(ctx, prog)
+    RH.rule_grid_index_of(ctx, prog)
+    roots = [b for b in all_roots(prog) if b.key.startswith("histogram::") or "histogram::" in b.key]
+    na = RL.rule_r8(ctx, prog, roots)
+    ctx.floor("R8", na, 2, "axis arguments in the histogram module")
+    RL.rule_r9(ctx, prog, roots)
+    RH.rule_lookup_delegation(ctx, prog)
+    return dict(
+        level="proof",
+        explanation="Accounting structure of the histogram, relative to C13 (bin lookup) and ndarray's IxDyn indexing: (R11) Histogram.counts "
+                    "is written/mutably borrowed only by new and add_observation, grid never after new, fields private; (R16) add_observation "
+                    "increments counts[idx] by exactly 1 exactly once on the found branch with idx = self.grid.index_of(observation), performs "
+                    "no write or call on the reject path and returns BinNotFound; new allocates zeros(grid.shape()) of the stored grid; the "
+                    "matrix form inserts every row (axis 0) once, ignores rejects and has no other loop exit; (R9) coordinate j is looked up "
+                    "in projection j with the arity asserted first. Order independence follows (commuting += 1).",
+    )
+
+
+def c13(ctx):
+    prog = ctx.prog("dev")
+    E, B, G = "histogram::bins::Edges", "histogram::bins::Bins", "histogram::grid::Grid"
+    n = RH.rule_field_own(ctx, prog, E, "edges", ["Edges<A> as std::convert::From<std::vec::Vec<A>>>::from"],
+                          constructors=["Edges<A> as std::convert::From<std::vec::Vec<A>>>::from"])
+    n += RH.rule_field_own(ctx, prog, B, "edges", ["Bins::<A>::new"], constructors=["Bins::<A>::new"])
+    n += RH.rule_field_own(ctx, prog, G, "projections", ["Grid<A> as std::convert::From<std::vec::Vec<histogram::bins::Bins<A>>>>::from"],
+                           constructors=["Grid<A> as std::convert::From<std::vec::Vec<histogram::bins::Bins<A>>>>::from"])
+    ctx.floor("R11", n, 3, "constructions of Edges, Bins, Grid")
+    nm = RH.rule_no_mut_self(ctx, prog, [E, B, G])
+    ctx.floor("R11", nm, 15, "methods of Edges/Bins/Grid inspected for &mut self")
+    RH.rule_edges_constructor(ctx, prog)
+    RH.rule_bins_len(ctx, prog)
+    RH.rule_lookup_delegation(ctx, prog)
+    RH.rule_grid_index_of(ctx, prog)
+    RH.rule_indices_of_tree(ctx, prog)
+    return dict(
+        level="other",
+        explanation="(R20) the decision tree of Edges::indices_of, extracted path by path from MIR, equals the left-closed/right-open "
+                    "table (Ok(i): last edge → none, else (i,i+1); Err(j): 0 or n → none, else (j−1,j)) on every (variant, index, n≤8) case, "
+                    "which with std's binary_search contract on strictly increasing edges is edge_i <= v < edge_{i+1}. "
+                    "(R11) Every Edges value is sorted and deduplicated by construction: the only non-derived construction is From<Vec>, "
+                    "dominated by sort_unstable then dedup of the same vector; From<Array1> delegates; fields of Edges/Bins/Grid are private, "
+                    "no method takes &mut self or lends &mut, each struct is built only by its constructor. (R13) one lookup primitive "
+                    "(binary_search in Edges::indices_of) behind Bins::index_of / range_of / Grid::index_of / Grid::shape, so the accessors "
+                    "agree by construction; Bins::len arms are 0→0, n→n−1. Trusted: binary_search's Ok/Err contract.",
+    )
+
+
+PROPS = {"C11": c11, "C13": c13, "C14": c14, "C05": c05, "C20": c20, "C16": c16, "C17": c17, "C04": c04, "C03": c03}
